@@ -1,6 +1,6 @@
 (* model_runner <mode>: one case per input line (s-expression), one result per line. *)
-open Sexp
 open Model
+open Sexp
 
 (* ---- numbers ---- *)
 let rec nat_of_int n = if n <= 0 then O else S (nat_of_int (n - 1))
@@ -67,6 +67,32 @@ let sexp_of_report r =
   L [A (match r.rverdict with Pass -> "Pass" | Fail -> "Fail");
      L (List.map (fun ((i, ok), a) -> L [A (string_of_int (int_of_n i)); A (if ok then "1" else "0"); sexp_of_akind a]) r.rlog)]
 
+(* ---- values ---- *)
+let fl_of_sexp = function
+  | A "nan" -> FNaN | A "inf" -> FInf | A "ninf" -> FNegInf | A t -> FFin (bytes_of_atom t) | _ -> failwith "fl"
+let rec val_of_sexp (x : Sexp.t) : val0 = match x with
+  | L [A "e"] -> VEmpty
+  | L [A "b"; A v] -> VBool (v = "1")
+  | L [A "i"; A z] -> VInt (z_of_string z)
+  | L [A "f"; f] -> VFloat (fl_of_sexp f)
+  | L [A "s"; A s] -> VStr (bytes_of_atom s)
+  | L (A "l" :: items) -> VList (List.map val_of_sexp items)
+  | L (A "t" :: fields) -> VTuple (List.map (function L [A k; v] -> (bytes_of_atom k, val_of_sexp v) | _ -> failwith "field") fields)
+  | L (A "env" :: fields) -> VEnv (List.map (function L [A k; A v] -> (bytes_of_atom k, bytes_of_atom v) | _ -> failwith "envfield") fields)
+  | L [A "c"] -> VConstraint
+  | _ -> failwith "val"
+let rec sexp_of_val (v : val0) : Sexp.t = match v with
+  | VEmpty -> L [A "e"]
+  | VBool v -> L [A "b"; A (if v then "1" else "0")]
+  | VInt z -> L [A "i"; A (string_of_z z)]
+  | VFloat (FFin t) -> L [A "f"; A (atom_of_bytes t)]
+  | VFloat FNaN -> L [A "f"; A "nan"] | VFloat FInf -> L [A "f"; A "inf"] | VFloat FNegInf -> L [A "f"; A "ninf"]
+  | VStr s -> L [A "s"; A (atom_of_bytes s)]
+  | VList l -> L (A "l" :: List.map sexp_of_val l)
+  | VTuple fs -> L (A "t" :: List.map (fun (k, v) -> L [A (atom_of_bytes k); sexp_of_val v]) fs)
+  | VEnv fs -> L (A "env" :: List.map (fun (k, v) -> L [A (atom_of_bytes k); A (atom_of_bytes v)]) fs)
+  | VConstraint -> L [A "c"]
+
 (* ---- C14 ---- *)
 let opt_bytes = function A "none" -> None | A a -> Some (bytes_of_atom a) | _ -> failwith "opt_bytes"
 let run_out atomic = function
@@ -96,6 +122,16 @@ let run mode (line : string) : string =
   | "out" -> run_out true x
   | "out_legacy" -> run_out false x
   | "withext" -> (match x with L [A s; A e] -> atom_of_bytes (with_extension (bytes_of_atom s) (bytes_of_atom e)) | _ -> failwith "withext")
+  | "json_out" ->
+    (match json_output (val_of_sexp x) with
+     | Ok t -> "ok " ^ atom_of_bytes t | Err -> "err" | Unsupported -> "unsupported")
+  | "json_in" ->
+    (match x with A h -> (match json_input (bytes_of_atom h) with
+                         | None -> "err" | Some v -> "ok " ^ to_string (sexp_of_val v)) | _ -> failwith "json_in")
+  | "b64" -> (match x with L [A u; A h] -> atom_of_bytes (b64_encode (u = "1") (bytes_of_atom h)) | _ -> failwith "b64")
+  | "b64dec" -> (match x with L [A u; A h] -> (match b64_decode (u = "1") (bytes_of_atom h) with
+                                               | None -> "none" | Some r -> atom_of_bytes r) | _ -> failwith "b64dec")
+  | "normalize" -> (match x with A h -> atom_of_bytes (normalize (bytes_of_atom h)) | _ -> failwith "normalize")
   | "zdec" -> (match x with A s -> string_of_z (z_of_string s) | _ -> failwith "zdec")
   | _ -> failwith ("mode " ^ mode)
 
@@ -105,11 +141,11 @@ let () =
      while true do
        let line = input_line stdin in
        if line <> "" then begin
-         (try print_string (run mode line) with
-          | Failure m -> print_string ("error:" ^ m)
-          | Not_found -> print_string "error:not_found"
-          | Stack_overflow -> print_string "error:stack_overflow");
-         print_newline ()
+         (try Stdlib.print_string (run mode line) with
+          | Failure m -> Stdlib.print_string ("error:" ^ m)
+          | Not_found -> Stdlib.print_string "error:not_found"
+          | Stack_overflow -> Stdlib.print_string "error:stack_overflow");
+         Stdlib.print_newline ()
        end
      done
    with End_of_file -> ())
